@@ -1,9 +1,124 @@
 import ShpanVerif.Util.Parse
-/- Driver handler for C11 (stub: replaced when the property's model lands). -/
+import ShpanVerif.Drive.QueryIO
+import ShpanVerif.Model.QueryRef
+/-
+Driver handler for C11 (evaluation matches the reference semantics; datasource/report twins agree).
+Case grammar and observation format: notes/C10-protocol.md.
+  q  cases: model = executable model; spec = the observation equals the rendering of the REFERENCE interpreter
+            (`Ref.refR` / `Ref.refD`, Model/QueryRef.lean) — metadata and rows; a query the reference rejects must be
+            rejected; where the reference says some row fails, the observation must be a row error (join-free trees).
+            Trees with a reduction datasource have no reference semantics here (C14): only model = obs is compared.
+  tw cases: the same datasource-API chain built three ways (A datasource API, B report API over FromDatasource,
+            C report API + ToDatasource); spec = the three observations are identical and equal the reference.
+            A disagreement that disappears when the report override filter keeps the custom metadata (the repaired
+            variant `fixD22`) and that involves an override without custom metadata is classified `KF:D22`.
+-/
 namespace ShpanVerif.Drive.C11
+open ShpanVerif.Util ShpanVerif.Model.Query ShpanVerif.Drive.QueryIO
+
+def O := floatOps
+
+def fmtRef (mask : Bool) (r : Ref.RRes Float) : Option String :=
+  match r with
+  | none => some "reject"
+  | some (metas, some rows) =>
+    some ("ok prepull=0 meta" ++ String.join (metas.map fun m => " " ++ fmtFm m) ++ " | rows" ++
+      String.join (rows.map fun r => " " ++ fmtRow mask r))
+  | some (metas, none) =>
+    some ("ok prepull=0 meta" ++ String.join (metas.map fun m => " " ++ fmtFm m) ++ " | rowerr")
+
+mutual
+  def hasJoinR : RDs Float → Bool
+    | .static _ _ => false
+    | .filtered ds _ => hasJoinR ds
+    | .join _ _ => true
+    | .fromDs d => hasJoinD d
+  def hasJoinD : DDs Float → Bool
+    | .static _ _ => false
+    | .filtered d _ => hasJoinD d
+    | .reduction _ _ _ _ _ => true
+    | .fromReport r _ => hasJoinR r
+end
+
+/-- compare an observation with the reference rendering -/
+def refVerdict (obs : String) (ref : Option String) (lazyOk : Bool) : Bool × String :=
+  match ref with
+  | none => (true, "")
+  | some "reject" =>
+    if obs.startsWith "reject " then (true, "") else (false, "reference semantics rejects this query")
+  | some want =>
+    if obs == want then (true, "")
+    else if obs.startsWith "reject " then (false, s!"reference semantics accepts this query; want {want}")
+    else if want.endsWith "| rowerr" && lazyOk && (obs.splitOn " | ").head? == (want.splitOn " | ").head? then
+      -- a join may end before it pulls the failing row
+      (true, "")
+    else (false, s!"want {want}")
+
+def splitTw (obs : String) : Option (String × String × String) :=
+  -- "A{ x } B{ y } C{ z }"
+  match obs.splitOn " } B{ " with
+  | [a, rest] =>
+    match rest.splitOn " } C{ " with
+    | [b, c] =>
+      if a.startsWith "A{ " && c.endsWith " }" then some ((a.drop 3).toString, b, (c.dropEnd 2).toString) else none
+    | _ => none
+  | _ => none
+
+def hasEmptyOverride (fs : List (DFilter Float)) : Bool :=
+  fs.any fun f => match f with
+    | .override _ _ none => true
+    | .override _ _ (some c) => c.isEmpty
+    | _ => false
+
+def twModels (fix : Bool) (mask : Bool) (f t : Int) (fm : FieldMeta) (rows : List (DRec Float))
+    (fs : List (DFilter Float)) : String × String × String :=
+  let st : DDs Float := .static fm rows
+  let a := fmtDResult mask (execD O fix f t (.filtered st fs))
+  let b := fmtRResult mask (execR O fix f t (.filtered (.fromDs st) (Ref.liftFilters fm.urn fs)))
+  let c := fmtDResult mask (execD O fix f t
+    (.fromReport (.filtered (.fromDs st) (Ref.liftFiltersC fm.urn fs)) (Ref.finalUrn fm.urn fs)))
+  (a, b, c)
 
 /-- returns (model output, spec verdict on the observation, reason) -/
-def handle (_c _obs : String) : String × Bool × String :=
-  ("unimplemented", false, "no model yet")
+def handle (c obs : String) : String × Bool × String :=
+  match parseQCase c with
+  | none => ("bad-case", false, "unparsable case")
+  | some (.rep mask f t q) =>
+    let model := match inputErrR q with
+      | some e => rejectStr e
+      | none => fmtRResult mask (execR O false f t q)
+    if !inputsOkR q then (model, true, "inputs not schema-conforming: property does not apply")
+    else
+      let ref := if Ref.hasReductionR q then none else fmtRef mask (Ref.refR O false f t q)
+      let (ok, why) := refVerdict obs ref (hasJoinR q)
+      (model, ok, why)
+  | some (.ds mask f t q) =>
+    let model := match inputErrD q with
+      | some e => rejectStr e
+      | none => fmtDResult mask (execD O false f t q)
+    if !inputsOkD q then (model, true, "inputs not schema-conforming: property does not apply")
+    else
+      let ref := if Ref.hasReductionD q then none else fmtRef mask (Ref.refD O false f t q)
+      let (ok, why) := refVerdict obs ref (hasJoinD q)
+      (model, ok, why)
+  | some (.tw mask f t fm rows fs) =>
+    let (a, b, cc) := twModels false mask f t fm rows fs
+    let model := match fmErr fm with
+      | some e => rejectStr e
+      | none => "A{ " ++ a ++ " } B{ " ++ b ++ " } C{ " ++ cc ++ " }"
+    if !inputsOkD (.static fm rows) then (model, true, "inputs not schema-conforming: property does not apply")
+    else match splitTw obs with
+      | none => (model, false, "observation not in the A{ } B{ } C{ } format")
+      | some (oa, ob, oc) =>
+        let ref := fmtRef mask (Ref.refD O false f t (.filtered (.static fm rows) fs))
+        let (okRef, whyRef) := refVerdict oa ref false
+        if oa == ob && oa == oc && okRef then (model, true, "")
+        else
+          -- classify: explained by the recorded finding D22?
+          let (fa, fb, fc) := twModels true mask f t fm rows fs
+          if hasEmptyOverride fs && obs == model && fa == a && fa == fb && fa == fc && okRef then
+            (model, false, "KF:D22 report OverrideFieldMetadataFilter drops custom metadata when none is given; datasource twin keeps it")
+          else if !(oa == ob && oa == oc) then (model, false, "twins disagree: A/B/C observations differ")
+          else (model, false, whyRef)
 
 end ShpanVerif.Drive.C11
